@@ -5,11 +5,16 @@ import (
 )
 
 func LadnToModels(buf []uint8) (dnnValues []string) {
-	for bufOffset := 1; bufOffset < len(buf); {
+	// LADN indication contents (TS 24.501 9.11.3.29): a sequence of (length, DNN value) entries
+	for bufOffset := 0; bufOffset < len(buf); {
 		lenOfDnn := int(buf[bufOffset])
-		dnn := string(buf[bufOffset : bufOffset+lenOfDnn])
+		if bufOffset+1+lenOfDnn > len(buf) {
+			// truncated entry: stop at the last complete one
+			break
+		}
+		dnn := string(buf[bufOffset+1 : bufOffset+1+lenOfDnn])
 		dnnValues = append(dnnValues, dnn)
-		bufOffset += lenOfDnn
+		bufOffset += 1 + lenOfDnn
 	}
 
 	return
